@@ -386,6 +386,18 @@ pub fn monitored_swap(acc: &mut Acc, wd: &mut PairWorld, pl: &SwapPlan) -> bool 
     let Ok(pre) = wd.observe() else { return false };
     let ask = 1 - pl.dir;
     let sim = wd.simulate(pl.dir, pl.amount);
+    // C02 on the quote itself: the Simulation answer must be the floor formula on the reserves reported by Pool{}
+    if wd.kind == Kind::Cp {
+        if let Ok(s) = &sim {
+            acc.count("check.E.simulation");
+            let gross_sim = w(s.return_amount.u128()) + w(s.swap_fee_amount.u128()) + w(s.protocol_fee_amount.u128()) + w(s.burn_fee_amount.u128());
+            let og = w(pre.r[ask]) * w(pl.amount) / (w(pre.r[pl.dir]) + w(pl.amount));
+            let want = [mul_share_floor(og, wd.fees[0]), mul_share_floor(og, wd.fees[1]), mul_share_floor(og, wd.fees[2])];
+            if gross_sim != og || w(s.protocol_fee_amount.u128()) != want[0] || w(s.swap_fee_amount.u128()) != want[1] || w(s.burn_fee_amount.u128()) != want[2] {
+                acc.violation("C02", "C02.E/simulation!=floor-formula-on-reported-reserves", viol_detail(wd, json!({"sim": format!("{s:?}"), "oracle_gross": og.to_string(), "reserves": [pre.r[0].to_string(), pre.r[1].to_string()], "pending": [pre.pend[0].to_string(), pre.pend[1].to_string()], "dir": pl.dir, "amount": pl.amount.to_string()})));
+            }
+        }
+    }
     let receiver = pl.to.map(|t| wd.users[t].clone()).unwrap_or(wd.users[pl.user].clone());
     let sender = wd.users[pl.user].clone();
     let rb_pre = wd.pair.assets[ask].balance(&wd.app, &receiver);
